@@ -411,6 +411,10 @@ class Pure:
     def p_BinOp(self, node, env):
         a, b = self.ev(node.left, env), self.ev(node.right, env)
         op = type(node.op).__name__
+        if isinstance(a, OptV):
+            a = a.val
+        if isinstance(b, OptV):
+            b = b.val
         if not (isinstance(a, Num) and isinstance(b, Num)):
             raise EngineError(f"spec: arithmetic on {a}, {b} at {self.file}:{node.lineno}")
         if op in ("Add", "Sub", "Mult", "Div"):
@@ -528,10 +532,9 @@ class Pure:
                 lo, hi = to_int(self.ev(node.args[0], env)), to_int(self.ev(node.args[1], env))
                 lam = node.args[2]
                 vn = lam.args.args[0].arg
-                x = z3.Int(fresh_name(vn))
-                body = to_real(self.ev(lam.body, dict(env, **{vn: Num(x, "int")})))
-                A = z3.Const(fresh_name("sumarg"), ARR)
-                self.defs.append(z3.ForAll([x], A[x] == body, patterns=[A[x]]))
+                A, ax = named_array(lambda k: to_real(self.ev(lam.body, dict(env, **{vn: Num(k, "int")}))))
+                if ax is not None:
+                    self.defs.append(ax)
                 self.I.need_sum = True
                 return Num(SUM(A, lo, hi), "real")
             args = [self.ev(a, env) for a in node.args]
@@ -544,6 +547,10 @@ class Pure:
                 if isinstance(v, F2):
                     return Num(v.o.rows, "int")
                 raise EngineError(f"spec: len of {v}")
+            if name == "nan_at":
+                m2, r, c = args
+                nm = m2.o.nanmask2
+                return Num(nm(to_int(r), to_int(c)) if nm else z3.BoolVal(False), "bool")
             if name == "ncols":
                 return Num(args[0].o.cols, "int")
             if name == "implies":
